@@ -374,12 +374,25 @@ class Gen(object):
     vref = r.choice(views + [0]) if views else 0
     return ['CreateViewSection', tref, vref, r.choice(['record', 'detail', 'chart']), None, None]
 
+  @staticmethod
+  def _lists_in_plain_column(view, tid, col_id):
+    """A column that is not of a list type but holds list values (a ChoiceList column converted to Any keeps
+    them): grouping by it is the known finding F-C12-list-values-in-any-groupby, kept to its witness."""
+    try:
+      table = view.eng.tables[tid]
+      col = table.get_column(col_id)
+      if col.type_obj.typename() in ('ChoiceList', 'RefList'):
+        return False
+      return any(isinstance(col.raw_get(r), (list, tuple)) for r in table.row_ids)
+    except Exception:   # pylint: disable=broad-except
+      return False
+
   def ua_create_summary(self, view, tid):
     r = self.rng
     if view.tables[tid]["summary"]:
       return None
     tref = view.tables[tid]["ref"]
-    dcols = view.data_cols(tid)
+    dcols = [c for c in view.data_cols(tid) if not self._lists_in_plain_column(view, tid, c)]
     k = r.randint(0, min(2, len(dcols)))
     chosen = r.sample(dcols, k)
     listcols = [c for c in dcols if view.tables[tid]["cols"][c][1].split(':')[0] in ('ChoiceList', 'RefList')]
@@ -401,7 +414,8 @@ class Gen(object):
     trec = view.eng.docmodel.tables.table.get_record(sec[1])
     src = trec.summarySourceTable
     dcols = [c for c in src.columns if not c.isFormula and c.colId != 'manualSort'
-             and not c.colId.startswith('gristHelper_')]
+             and not c.colId.startswith('gristHelper_')
+             and not self._lists_in_plain_column(view, src.tableId, c.colId)]
     k = r.randint(0, min(2, len(dcols)))
     gb = sorted(c.id for c in r.sample(dcols, k))
     return ['UpdateSummaryViewSection', sec[0], gb]
